@@ -79,7 +79,7 @@ func vMoreSpecific(a, b []vTok) bool {
 			}
 			continue
 		}
-		if a[i].kind == tkLit && b[i].kind == tkVar {
+		if a[i].kind == tkLit && (b[i].kind == tkVar || b[i].kind == tkAffix || b[i].kind == tkRegex) {
 			better = true
 			continue
 		}
